@@ -203,7 +203,9 @@ Definition fleaf (t tr : ty) (v : val) : outcome val :=
     | VNil => Ok VNil
     | VPtr (VStr s) =>
         ct <- match t with TSlice _ _ | TMap _ _ _ => Ok t | _ => type_elem t end ;;
-        r <- e_parse E s ct ;; Ok (snd r)
+        r <- e_parse E s ct ;;
+        (* converted back to the leaf's type; a value that cannot be is an error *)
+        if convertible (fst r) t then Ok (snd r) else Err 20
     | _ => Err no_spec
     end
   else nspec_ty t tr v.
